@@ -18,11 +18,18 @@ Fixpoint ext_from (p b c : Z) (i : nat) (ts : list tok) : nat :=
   end.
 Definition ext_stop (toks : list tok) (k : nat) : nat := ext_from 0 0 0 (S k) (skipn (S k) toks).
 
-(* the NAME that "calls" position k: the last NAME before k with no NAME, `,` or `)` in between *)
-Definition kstep (last : option string) (t : tok) : option string :=
-  if is_kind KName t then Some (ttext t) else if is_stop t then None else last.
-Definition key_before (toks : list tok) (k : nat) : option string :=
-  fold_left kstep (firstn k toks) None.
+(* the NAME that "calls" position k, as find_identifier tracks it: the last NAME before k - except
+   that a NAME immediately followed by the OP `=` (the keyword of an argument, `f=lambda ...`) does
+   not count: the NAME before it is restored - with no `,` or `)` after it (the scan restarts there) *)
+Record kstate := mkK { k_last : option string; k_prev : option string; k_name : bool }.
+Definition kstep (s : kstate) (t : tok) : kstate :=
+  if is_kind KName t then mkK (Some (ttext t)) (k_last s) true
+  else if is_stop t then mkK None None false
+  else if k_name s && is_op "=" t then mkK (k_prev s) (k_prev s) false
+  else mkK (k_last s) (k_prev s) false.
+Definition key_state (toks : list tok) (k : nat) : kstate :=
+  fold_left kstep (firstn k toks) (mkK None None false).
+Definition key_before (toks : list tok) (k : nat) : option string := k_last (key_state toks k).
 Definition called_byb (toks : list tok) (k : nat) (caller : string) : bool :=
   match key_before toks k with Some nm => String.eqb nm caller | None => false end.
 
@@ -56,8 +63,10 @@ Definition not_nestedb (toks : list tok) (k0 : nat) : bool :=
 (* ------------------------------------------------------------------------------------------
    Supported layouts: the scanned logical line is a sequence of call segments
        glue  NAME(f)  gap  `lambda` body  stop
-   where glue has no `lambda`, no NEWLINE token, gap has no NAME and no NEWLINE token, body is the
-   argument (brackets balanced relative to its start, no `,`/`)` at depth 0), stop is `,` or `)`.
+   where glue has no `lambda`, no NEWLINE token, gap has no NEWLINE token, does not begin with the OP
+   `=`, and every NAME in it is immediately followed by the OP `=` (keywords of arguments of the call:
+   `f(k=lambda ...`, `f(n=1, k=lambda ...`; f stays the identifier find_identifier returns), body is
+   the argument (brackets balanced relative to its start, no `,`/`)` at depth 0), stop is `,` or `)`.
    Only the last segment's body may contain a line break. *)
 Record segment := mkSeg { g_glue : list tok; g_name : string; g_row : nat; g_gap : list tok;
                           g_lrow : nat; g_body : list tok; g_stop : tok }.
@@ -80,8 +89,23 @@ Definition glue_tok_ok (first : bool) (kw : list string) (t : tok) : bool :=
   no_err t
   && (if first then negb (is_kind KName t && existsb (String.eqb (ttext t)) kw)
       else negb (is_name "lambda" t) && negb (is_kind KNewline t)).
-Definition gap_tok_ok (t : tok) : bool :=
-  no_err t && negb (is_kind KName t) && negb (is_kind KNewline t).
+(* a NAME the scan steps over (not the keyword it looks for) *)
+Definition plain_name (first : bool) (kw : list string) (s : string) : bool :=
+  if first then negb (existsb (String.eqb s) kw) else negb (String.eqb s "lambda").
+(* [after_name]: the token before ts is a NAME (then an OP `=` would turn that NAME into a keyword) *)
+Fixpoint gap_ok (first : bool) (kw : list string) (after_name : bool) (ts : list tok) : bool :=
+  match ts with
+  | [] => true
+  | t :: r =>
+      no_err t && negb (is_kind KNewline t) &&
+      (if is_kind KName t then
+         plain_name first kw (ttext t) &&
+         match r with
+         | e :: r' => is_op "=" e && gap_ok first kw false r'
+         | [] => false
+         end
+       else negb (after_name && is_op "=" t) && gap_ok first kw false r)
+  end.
 
 Definition seg_toks (g : segment) : list tok :=
   g_glue g ++ [mkTok (g_row g) KName (g_name g)] ++ g_gap g
@@ -90,7 +114,7 @@ Definition seg_toks (g : segment) : list tok :=
 Definition seg_ok (first last : bool) (kw : list string) (g : segment) : bool :=
   forallb (glue_tok_ok first kw) (g_glue g)
   && (if first then negb (existsb (String.eqb (g_name g)) kw) else negb (String.eqb (g_name g) "lambda"))
-  && forallb gap_tok_ok (g_gap g)
+  && gap_ok first kw true (g_gap g)
   && body_balanced (g_body g)
   && is_stop (g_stop g)
   && (last || negb (existsb is_nl (g_body g))).
@@ -206,7 +230,7 @@ Fixpoint nested_ok (stack : list br) (ts : list tok) : bool :=
 Definition seg_syn_ok (first last : bool) (kw : list string) (g : segment) : bool :=
   forallb (glue_tok_ok first kw) (g_glue g)
   && (if first then negb (existsb (String.eqb (g_name g)) kw) else negb (String.eqb (g_name g) "lambda"))
-  && forallb gap_tok_ok (g_gap g)
+  && gap_ok first kw true (g_gap g)
   && nested_ok [] (g_body g)
   && is_stop (g_stop g)
   && (last || negb (existsb is_nl (g_body g))).
